@@ -82,8 +82,9 @@ func (b *BFT) ProcessDSE(dse ...*DoubleSignEvidence) (results []*lib.DoubleSigne
 		if err != nil {
 			return nil, err
 		}
-		// ensure the evidence isn't expired
-		minEvidenceHeight, err := b.LoadMinimumEvidenceHeight(rootChainId, committeeHeight)
+		// ensure the evidence isn't expired: the minimum evidence height is that of the CURRENT root height (asked for as of the
+		// evidence's own root height it is always below that height, and no evidence would ever expire)
+		minEvidenceHeight, err := b.LoadMinimumEvidenceHeight(rootChainId, b.RootHeight)
 		if err != nil {
 			return nil, err
 		}
